@@ -216,13 +216,19 @@ Proof.
 Qed.
 
 Theorem stdin_single i : use_stdin (ci_args i) = true -> ci_gunzip i = false ->
-  cli_sources fs glob gunzip probe flush i = Some ([stdin_source flush (ci_batch i) (ci_stdin i)], 0) /\
-  input_of [stdin_source flush (ci_batch i) (ci_stdin i)] = numbered StdinName 1%N (lines_spec (ci_stdin i)) /\
-  errors_of [stdin_source flush (ci_batch i) (ci_stdin i)] = 0.
+  let src := stdin_source flush (ci_batch i) (ci_stdin i) (ci_stdin_err i) in
+  cli_sources fs glob gunzip probe flush i = Some ([src], if ci_stdin_err i then 1 else 0) /\
+  input_of [src] = numbered StdinName 1%N (lines_spec (ci_stdin i)) /\
+  errors_of [src] = (if ci_stdin_err i then 1 else 0).
 Proof.
   intros H1 H2. unfold cli_sources. rewrite H1, H2. split; [reflexivity|]. split.
   - unfold input_of, stdin_source. simpl. rewrite app_nil_r. apply cut_ids.
-  - reflexivity.
+  - unfold errors_of, stdin_source. simpl. destruct (ci_stdin_err i); reflexivity.
+Qed.
+Theorem stdin_failure_exit i : use_stdin (ci_args i) = true -> ci_gunzip i = false -> ci_stdin_err i = true ->
+  co_exit (cli_model fs glob gunzip probe flush i) = 2%Z /\ 1 <= co_nlog (cli_model fs glob gunzip probe flush i).
+Proof.
+  intros H1 H2 H3. unfold cli_model, cli_sources. rewrite H1, H2, H3. simpl. split; [reflexivity|lia].
 Qed.
 Theorem stdin_gunzip_usage i : use_stdin (ci_args i) = true -> ci_gunzip i = true ->
   cli_model fs glob gunzip probe flush i = mkobs [] exit_usage 1.
@@ -256,8 +262,10 @@ Proof.
   - destruct (ci_gunzip i) eqn:Hz; simpl.
     + reflexivity.
     + rewrite seq_keys_filter. rewrite !app_nil_r, !cut_ids. change STDIN_LIT with StdinName.
-      rewrite lines_same_refl. change (errors_of [stdin_source flush (ci_batch i) (ci_stdin i)]) with 0.
-      rewrite Z.eqb_refl. reflexivity.
+      rewrite lines_same_refl.
+      replace (errors_of [stdin_source flush (ci_batch i) (ci_stdin i) (ci_stdin_err i)]) with (if ci_stdin_err i then 1 else 0)
+        by (unfold errors_of, stdin_source; simpl; destruct (ci_stdin_err i); reflexivity).
+      rewrite Z.eqb_refl. simpl. apply Nat.leb_le. lia.
   - simpl. rewrite seq_keys_filter, input_of_sources, errors_of_sources, expand_spec.
     unfold spec_mentions. rewrite lines_same_refl, Z.eqb_refl. simpl.
     apply Nat.leb_le.
